@@ -951,6 +951,9 @@ def c10(work, v, tier):
     insts = [("g2x1", dict(G=2, OpsPer=1, Lens="{0, 1, 2, 3}", Caps="{0, 2}", FAMILY="core"), 0),
              ("g2x2", dict(G=2, OpsPer=2, Lens="{1, 2}" if not q else "{1}", Caps="{0, 3}", FAMILY="poppush"), 20000 if q else 0),
              ("g3x1", dict(G=3, OpsPer=1, Lens="{0, 1, 2}" if not q else "{1}", Caps="{0, 2}", FAMILY="mini3"), 20000 if q else 0)]
+    # with a push policy installed: the closure runs inside Push's critical section (one lock acquisition per call)
+    insts.append(("g2x1pol", dict(G=2, OpsPer=1, Lens="{0, 1}", Caps="{0, 2}", FAMILY="policy"), 0))
+    insts.append(("g2x2pol", dict(G=2, OpsPer=2, Lens="{1}", Caps="{3}", FAMILY="policy"), 10000 if q else 0))
     if not q:
         insts.append(("g2x2core", dict(G=2, OpsPer=2, Lens="{1}", Caps="{0}", FAMILY="core"), 200000))
     for name, c, limit in insts:
